@@ -241,6 +241,25 @@ def index_checks(chk, rows, rng, quick, L, only_n=None):
         chk.violation("generate_hilbert_space:limit:size-above-limit-accepted", dict(max_size=5, size=6))
     except ValueError:
         pass
+    # a generated space belongs to the caller: writing into it (e.g. using it as an overwritten start state of
+    # a Gibbs chain) must not change what later calls return - on the same or on another state object
+    for n_ in (1, 2, 3):
+        a = state(n_)
+        b = state(n_)
+        first = a.generate_hilbert_space(n_)
+        want = first.clone()
+        first.mul_(-1).add_(1)                                     # all bits flipped, in place
+        a.sample(1, initial_state=a.generate_hilbert_space(n_), overwrite=True)
+        for who, st_ in (("same-object", a), ("other-object", b)):
+            chk.evaluations += 1
+            again = st_.generate_hilbert_space(n_)
+            if not torch.equal(again, want):
+                chk.violation("generate_hilbert_space:aliased-result:" + who,
+                              dict(n=n_, expected=want.tolist(), got=again.tolist()))
+        for k_ in range(2 ** n_):
+            if not torch.equal(a.subspace_vector(k_, n_), want[k_]):
+                chk.violation("subspace_vector:after-in-place-use", dict(n=n_, k=k_))
+                break
     # the limit applies to the DEFAULT size too (a state with more visible units than the limit;
     # fidelity / KL / NLL call generate_hilbert_space() without a size), for every state type
     from qucumber.nn_states import ComplexWaveFunction, DensityMatrix
@@ -466,6 +485,21 @@ def enumerated_files(chk, exports, d, rng, D):
         got = z.to(torch.int64).tolist()
         if got != e["loaded"]["ref"] or z.dim() != 2:
             chk.violation("extract_refbasis_samples:enumerated", dict(info, expected=e["loaded"]["ref"], got=got))
+        # the same bases in other array layouts a user legitimately ends up with (column-major storage after a
+        # column selection / transpose, a non-contiguous view, an object array): same rows, same answer
+        if bs2.ndim == 2 and bs2.shape[0] >= 1:
+            wide = np.concatenate([bs2, bs2], axis=1)
+            variants = [("fortran", np.asfortranarray(bs2)), ("transposed-build", np.array(bs2.T.tolist()).T),
+                        ("column-view", wide[:, :bs2.shape[1]]), ("fancy-columns", bs2[:, list(range(bs2.shape[1]))]),
+                        ("object", bs2.astype(object))]
+            for vname, arr in variants:
+                if arr.shape != bs2.shape or not (arr == bs2).all():
+                    raise common.MachineryError("layout variant %s is not the same array" % vname)
+                zz = D.qdata.extract_refbasis_samples(smp2, arr)
+                chk.evaluations += 1
+                if zz.to(torch.int64).tolist() != e["loaded"]["ref"]:
+                    chk.violation("extract_refbasis_samples:array-layout:" + vname,
+                                  dict(info, expected=e["loaded"]["ref"], got=zz.to(torch.int64).tolist()))
         zs = [r for r in e["bases"] if all(t == "Z" for t in r)]
         some = [r for r in e["bases"] if "Z" in r and not all(t == "Z" for t in r)]
         if zs and some:
